@@ -41,8 +41,7 @@ def objJson (o : Obj Val) : Json :=
 
 def sites := Gen.Angles.sites
 
-def strOf (o : Obj Val) : List Char :=
-  formatFloat o.a ++ ' ' :: formatFloat o.b ++ ' ' :: formatFloat o.c
+def strOf (o : Obj Val) : List Char := vecStr o.a o.b o.c
 
 def optNat (j : Json) : Except String (Option Nat) :=
   if j.isNull then pure none else do pure (some (← j.getNat?))
